@@ -353,9 +353,11 @@ func c20ShapeF3(vars []c20Var) bool {
 		infos = append(infos, in)
 	}
 
+	isPrefix := func(a, b string) bool { return a == b || strings.HasPrefix(b, a+".") }
+
 	for i := range infos {
-		for j := i + 1; j < len(infos); j++ {
-			if infos[i].idx && infos[j].idx && infos[i].n >= 2 && infos[i].prefix == infos[j].prefix {
+		for j := range infos {
+			if i != j && infos[i].n >= 2 && isPrefix(infos[i].prefix, infos[j].prefix) {
 				return true
 			}
 		}
